@@ -114,6 +114,16 @@ pub fn check_frame(addr: u16, ty: u8, data: &[u8], rep: &mut Report) {
                     if f != owned || f.address().0 != addr || f.message_type().0 != ty || f.data().as_ref() != data {
                         bad.push(("decode_differs", sig.clone(), format!("{:?} ({})", f, label)));
                     }
+                    // equal frames hash alike, wherever they came from (a set of frames must not hold one frame twice)
+                    use std::hash::{Hash, Hasher};
+                    let h = |x: &Frame<'_>| {
+                        let mut s = std::collections::hash_map::DefaultHasher::new();
+                        x.hash(&mut s);
+                        s.finish()
+                    };
+                    if h(&f) != h(&owned) || h(&f) != h(&borrowed) || owned != f || borrowed != f {
+                        bad.push(("decoded_frame_hashes_differently", sig.clone(), format!("hash / symmetric equality of the decoded frame ({})", label)));
+                    }
                 }
                 Err(e) => bad.push(("decode_rejected", "Ok(frame)".into(), format!("{:?} ({})", e, label))),
             }
